@@ -1009,3 +1009,171 @@ Qed.
 
 Lemma status_mapping : status_plain_error <> status_ok /\ status_unretriable <> status_ok /\ status_other_seata_error <> status_ok.
 Proof. repeat split; discriminate. Qed.
+
+(* ================= phase one interleaved with foreign commits ================= *)
+Lemma apply_fwrite_wf w d : db_wf d -> db_wf (apply_fwrite w d).
+Proof.
+  intro W. destruct w as [tn k r|tn k]; cbn; apply db_set_wf; auto; [apply insert_wf | apply remove_wf]; apply W.
+Qed.
+
+Lemma apply_foreign_wf ws d : db_wf d -> db_wf (apply_foreign ws d).
+Proof.
+  unfold apply_foreign. revert d; induction ws as [|w ws IH]; intros d W; cbn; [assumption|].
+  apply IH, apply_fwrite_wf, W.
+Qed.
+
+Lemma apply_foreign_app ws1 ws2 d : apply_foreign (ws1 ++ ws2) d = apply_foreign ws2 (apply_foreign ws1 d).
+Proof. unfold apply_foreign. apply fold_left_app. Qed.
+
+Lemma phase1i_bs_range cfg xid prog : forall b d d1 bs, phase1i cfg xid b prog d = (d1, bs) ->
+  forall y, In y bs -> fst y = xid /\ (b <= snd y)%N.
+Proof.
+  induction prog as [|[ss|ws] prog IH]; intros b d d1 bs H y Hy; cbn in H.
+  - inversion H; subst. destruct Hy.
+  - destruct (phase1_branch cfg (xid, b) ss d) as [dA ok] eqn:PB.
+    destruct (phase1i cfg xid (N.succ b) prog dA) as [d2 bs'] eqn:P.
+    inversion H; subst; clear H.
+    assert (R : In y bs' -> fst y = xid /\ (b <= snd y)%N).
+    { intro Hin. destruct (IH _ _ _ _ P y Hin) as [E L]. split; [assumption | lia]. }
+    destruct ok; [|auto]. destruct Hy as [<-|Hy]; [cbn; split; [reflexivity | lia] | auto].
+  - eapply IH; eassumption.
+Qed.
+
+Lemma phase1i_other cfg xid prog : forall b d d1 bs, phase1i cfg xid b prog d = (d1, bs) ->
+  forall y, (fst y <> xid \/ (snd y < b)%N) -> ulookup y (d_undo d1) = ulookup y (d_undo d).
+Proof.
+  induction prog as [|[ss|ws] prog IH]; intros b d d1 bs H y Hy; cbn in H.
+  - inversion H; subst. reflexivity.
+  - destruct (phase1_branch cfg (xid, b) ss d) as [dA ok] eqn:PB.
+    destruct (phase1i cfg xid (N.succ b) prog dA) as [d2 bs'] eqn:P.
+    inversion H; subst; clear H.
+    rewrite (IH _ _ _ _ P y) by (destruct Hy; [now left | right; lia]).
+    eapply phase1_branch_other; [eassumption|].
+    intro E. subst y. cbn in Hy. destruct Hy; [congruence | lia].
+  - rewrite (IH _ _ _ _ H y Hy). reflexivity.
+Qed.
+
+Lemma phase1i_rollback cfg xid prog : forall b d0 d1 bs,
+  db_wf (d_tabs d0) -> (forall b', (b <= b')%N -> ulookup (xid, b') (d_undo d0) = None) ->
+  phase1i cfg xid b prog d0 = (d1, bs) ->
+  forall (S : tablename -> key -> Prop) (u : dbs),
+    (forall x, In x bs -> forall tn k, branch_touched d1 x tn k -> S tn k) ->
+    (forall w, In w (foreign_of prog) -> ~ S (fwrite_tn w) (fwrite_key w)) ->
+    dagree S (d_tabs u) (d_tabs d1) ->
+    (forall x, In x bs -> ulookup x (d_undo u) = ulookup x (d_undo d1)) ->
+    exists u' sts, rollback_all cfg (rev bs) u = (u', sts) /\ Forall (eq status_ok) sts /\
+      dagree S (d_tabs u') (d_tabs d0) /\
+      (forall tn k, ~ S tn k -> lookup k (db_get tn (d_tabs u')) = lookup k (db_get tn (d_tabs u))) /\
+      (forall x, In x bs -> no_normal x u') /\
+      (forall y, ~ In y bs -> ulookup y (d_undo u') = ulookup y (d_undo u)).
+Proof.
+  induction prog as [|[ss|ws] prog IH]; intros b d0 d1 bs W Fr H S u Cov FS A UL; cbn in H.
+  - inversion H; subst. exists u, []. cbn. repeat split; auto. intros x [].
+  - destruct (phase1_branch cfg (xid, b) ss d0) as [dA ok] eqn:PB.
+    destruct (phase1i cfg xid (N.succ b) prog dA) as [d2 bs'] eqn:P.
+    inversion H; subst d2; clear H.
+    assert (WA : db_wf (d_tabs dA)) by (eapply phase1_branch_wf; eassumption).
+    assert (FrA : forall b', (N.succ b <= b')%N -> ulookup (xid, b') (d_undo dA) = None).
+    { intros b' Hb. rewrite (phase1_branch_other _ _ _ _ _ _ (xid, b') PB).
+      - apply Fr. lia.
+      - intro E. inversion E. lia. }
+    assert (Sub : forall x, In x bs' -> In x bs) by (intros x Hx; subst bs; destruct ok; [now right | assumption]).
+    destruct (IH _ _ _ _ WA FrA P S u) as [u1 [s1 [R1 [F1 [A1 [O1 [N1 U1]]]]]]].
+    { intros x Hx. apply Cov, Sub, Hx. }
+    { exact FS. }
+    { exact A. }
+    { intros x Hx. apply UL, Sub, Hx. }
+    assert (Xout : ~ In (xid, b) bs').
+    { intro Hin. destruct (phase1i_bs_range _ _ _ _ _ _ _ P _ Hin) as [_ L]. cbn in L. lia. }
+    destruct ok.
+    + subst bs. cbn [rev]. rewrite rollback_all_app, R1. cbn [rollback_all].
+      set (x := (xid, b)) in *.
+      assert (Xrow : ulookup x (d_undo d1) = ulookup x (d_undo dA)).
+      { apply (phase1i_other _ _ _ _ _ _ _ P x). right. cbn. lia. }
+      destruct (branch_roundtrip cfg x ss d0 dA W (Fr b (N.le_refl b)) PB S u1) as [E1 [A2 [O2 [N2 U2]]]].
+      { intros tn k T. apply (Cov x (or_introl eq_refl)). unfold branch_touched in *. now rewrite Xrow. }
+      { exact A1. }
+      { rewrite (U1 x Xout), (UL x (or_introl eq_refl)). exact Xrow. }
+      set (r := rollback_branch cfg None u1 x) in *.
+      exists (r_db r), (s1 ++ [r_out r]). split; [reflexivity|].
+      split; [apply Forall_app; split; [assumption | constructor; [now rewrite E1 | constructor]]|].
+      split; [exact A2|]. split; [|split].
+      * intros tn k NS. rewrite (O2 _ _ NS). apply O1, NS.
+      * intros y [<-|Hy]; [exact N2|].
+        assert (Hn : y <> x) by (intro E; subst y; contradiction).
+        unfold no_normal. rewrite (U2 y Hn). apply N1, Hy.
+      * intros y Hy.
+        assert (Hn : y <> x) by (intro E; subst y; apply Hy; now left).
+        rewrite (U2 y Hn). apply U1. intro Hin. apply Hy. now right.
+    + subst bs. apply phase1_branch_failed in PB. subst dA.
+      exists u1, s1. repeat split; auto.
+  - (* committed foreign writes between two branches: they touch nothing of S *)
+    set (dA := with_tabs d0 (apply_foreign ws (d_tabs d0))) in *.
+    destruct (IH b dA d1 bs) with (S := S) (u := u) as [u1 [s1 [R1 [F1 [A1 [O1 [N1 U1]]]]]]]; auto.
+    { cbn. now apply apply_foreign_wf. }
+    { intros w Hw. apply FS. cbn. apply in_or_app. now right. }
+    exists u1, s1. repeat split; auto.
+    intros tn k HS. rewrite (A1 _ _ HS). cbn.
+    apply lookup_apply_foreign_other. intros w Hw E.
+    apply (FS w); [cbn; apply in_or_app; now left|].
+    inversion E as [[E1 E2]]. rewrite E1, E2. exact HS.
+Qed.
+
+Lemma phase1i_frame cfg xid prog : forall b d0 d1 bs,
+  (forall b', (b <= b')%N -> ulookup (xid, b') (d_undo d0) = None) ->
+  phase1i cfg xid b prog d0 = (d1, bs) ->
+  forall tn k, (forall x, In x bs -> ~ branch_touched d1 x tn k) ->
+  lookup k (db_get tn (d_tabs d1)) = lookup k (db_get tn (apply_foreign (foreign_of prog) (d_tabs d0))).
+Proof.
+  induction prog as [|[ss|ws] prog IH]; intros b d0 d1 bs Fr H tn k NT; cbn in H.
+  - inversion H; subst. reflexivity.
+  - destruct (phase1_branch cfg (xid, b) ss d0) as [dA ok] eqn:PB.
+    destruct (phase1i cfg xid (N.succ b) prog dA) as [d2 bs'] eqn:P.
+    inversion H; subst d2; clear H.
+    assert (FrA : forall b', (N.succ b <= b')%N -> ulookup (xid, b') (d_undo dA) = None).
+    { intros b' Hb. rewrite (phase1_branch_other _ _ _ _ _ _ (xid, b') PB).
+      - apply Fr. lia.
+      - intro E. inversion E. lia. }
+    rewrite (IH _ _ _ _ FrA P tn k).
+    2:{ intros x Hx. apply NT. subst bs. destruct ok; [now right | assumption]. }
+    cbn [foreign_of]. apply lookup_apply_foreign_cong.
+    destruct ok.
+    + eapply phase1_branch_frame; [apply (Fr b (N.le_refl b)) | eassumption |].
+      assert (Xrow : ulookup (xid, b) (d_undo d1) = ulookup (xid, b) (d_undo dA)).
+      { apply (phase1i_other _ _ _ _ _ _ _ P (xid, b)). right. cbn. lia. }
+      intro T. apply (NT (xid, b)); [subst bs; now left|].
+      unfold branch_touched in *. now rewrite Xrow.
+    + apply phase1_branch_failed in PB. now subst dA.
+  - rewrite (IH b (with_tabs d0 (apply_foreign ws (d_tabs d0))) d1 bs Fr H tn k NT).
+    cbn [foreign_of d_tabs with_tabs]. now rewrite apply_foreign_app.
+Qed.
+
+(* C01 with foreign commits during phase one (between the branches) and before phase two *)
+Theorem restores_interleaved cfg xid b prog d0 d1 bs ws (L : list (tablename * key)) :
+  db_wf (d_tabs d0) ->
+  (forall b', (b <= b')%N -> ulookup (xid, b') (d_undo d0) = None) ->
+  phase1i cfg xid b prog d0 = (d1, bs) ->
+  (forall x, In x bs -> forall tn k, branch_touched d1 x tn k -> In (tn, k) L) ->
+  (forall w, In w (foreign_of prog ++ ws) -> ~ In (fwrite_tn w, fwrite_key w) L) ->
+  exists d2 sts,
+    rollback_all cfg (rev bs) (with_tabs d1 (apply_foreign ws (d_tabs d1))) = (d2, sts) /\
+    Forall (eq status_ok) sts /\
+    db_equiv (d_tabs d2) (apply_foreign (foreign_of prog ++ ws) (d_tabs d0)) /\
+    forall x, In x bs -> no_normal x d2.
+Proof.
+  intros W Fr P Cov Frn.
+  assert (NotL : forall tn k, In (tn, k) L -> forall w, In w (foreign_of prog ++ ws) -> (fwrite_tn w, fwrite_key w) <> (tn, k)).
+  { intros tn k HL w Hw E. apply (Frn w Hw). now rewrite E. }
+  destruct (phase1i_rollback cfg xid prog b d0 d1 bs W Fr P (inS L)
+              (with_tabs d1 (apply_foreign ws (d_tabs d1)))) as [d2 [sts [R [F [A [O [N _]]]]]]].
+  - exact Cov.
+  - intros w Hw. apply Frn. apply in_or_app. now left.
+  - intros tn k HS. cbn. apply lookup_apply_foreign_other. intros w Hw. apply (NotL _ _ HS). apply in_or_app. now right.
+  - intros x Hx. reflexivity.
+  - exists d2, sts. split; [exact R|]. split; [exact F|]. split; [|exact N].
+    intros tn k. destruct (in_dec tnk_eq_dec (tn, k) L) as [HL|HL].
+    + rewrite (A _ _ HL). symmetry. apply lookup_apply_foreign_other. now apply NotL.
+    + rewrite (O _ _ HL). cbn. rewrite apply_foreign_app. apply lookup_apply_foreign_cong.
+      eapply phase1i_frame; [exact Fr | exact P|].
+      intros x Hx T. apply HL. eapply Cov; eassumption.
+Qed.
